@@ -405,7 +405,7 @@ func (em *emitter) emitNodes(nodes []ast.Node) {
 // can be optimized if used in the show statement with context ctx.
 func (em *emitter) canOptimizeShowMacro(expr ast.Expression, ctx ast.Context) bool {
 
-	if ctx > ast.ContextMarkdown {
+	if ctx > ast.ContextMarkdown || em.inURL {
 		return false
 	}
 	call, ok := expr.(*ast.Call)
